@@ -50,7 +50,9 @@ def render_rules(sections):
       out.append('pattern = %s' % sec['pattern'])
     if 'default' in sec:
       out.append('default = %s' % sec['default'])
-    out.append('destinations = %s' % ', '.join(sec['dests']))
+    # the list separator as operators write it: ", " / "," / " , " / aligned with extra blanks (per section, deterministic)
+    seps = (', ', ',', ' , ', ',   ')
+    out.append('destinations = %s' % seps[(len(out) + len(sec['dests'])) % len(seps)].join(sec['dests']))
     if sec.get('continue') is not None:
       out.append('continue = %s' % sec['continue'])
     out.append('')
